@@ -69,6 +69,17 @@ func VX_C14_Races(args []int) {
 		run(func() { s.SetID("same") })
 		run(func() { s.SetID("other") })
 		n = 2
+	case 9: // two enumerations at once (one of them slow), with a second session present
+		c2 := newVxConn("srv:1", "cli:3")
+		p.ServeConn(c2)
+		run(func() {
+			p.RangeSession(func(x Session) bool { _ = x.ID(); vxYield(); return true })
+		})
+		run(func() {
+			p.RangeSession(func(x Session) bool { _ = x.ID(); return true })
+		})
+		run(func() { p.CountSession(); p.GetSession("cli:3") })
+		n = 3
 	case 6: // call vs remote close
 		run(func() { s.AsyncCall("/a", []byte("1"), new([]byte), make(chan CallCmd, 1)) })
 		conn.end()
